@@ -31,7 +31,7 @@ def budget(tier):
 
 def gen(rng, index, tier):
     nmax = 5 if tier == "quick" else 7
-    fam = rng.choice(["sparse", "blocky", "blocky", "near", "uniform", "complete", "dup"])
+    fam = rng.choice(["sparse", "blocky", "cyclic", "cyclic", "near", "uniform", "complete", "dup"])
     raw, meta = lib.gen_dataset(rng, nmax=nmax, mmax=5, family=fam)
     standin = rng.random() < 0.5
     config = rng.choice(CONFIGS_STANDIN if standin else CONFIGS_ABSENT)
